@@ -1,5 +1,5 @@
 CFG = dict(
-    n={'quick': 4000, 'thorough': 120000},
+    n={'quick': 5000, 'thorough': 120000},
     oracle=True,
     reference=True,
     corr='dec of every AEAD scheme (checked-slice Gallina models over stdlib oracles) vs tink.AEAD.Decrypt on mutation streams (bit flips, cuts, extensions, prefix swaps, AD edits, other keys, arbitrary strings, envelope headers): exact accept/reject/panic prediction',
